@@ -7,7 +7,8 @@ from plistlib import dumps, InvalidFileException, load
 
 from . import json
 from .edits import Edit, EditCollection, Match
-from .graphtage import BoolNode, BuildOptions, Filetype, FloatNode, KeyValuePairNode, IntegerNode, LeafNode, StringNode
+from .graphtage import BoolNode, BuildOptions, Filetype, FloatNode, KeyValuePairNode, IntegerNode, LeafNode, NullNode, \
+    StringNode
 from .printer import Printer
 from .sequences import SequenceFormatter, SequenceNode
 from .tree import ContainerNode, GraphtageFormatter, TreeNode
@@ -142,6 +143,10 @@ class PLISTFormatter(GraphtageFormatter):
             printer.write("<true />")
         else:
             printer.write("<false />")
+
+    def print_NullNode(self, printer: Printer, node: NullNode):
+        # PLIST has no null value, so plistlib cannot serialize it (this happens when other formats are printed as PLIST)
+        printer.write("<null />")
 
     def print_LeafNode(self, printer: Printer, node: LeafNode):
         self.write_obj(printer, node.object)
